@@ -16,12 +16,12 @@ CLANG_FLAGS = ['-std=c++20', '-I' + REPO + '/include', '-I' + REPO, '-I' + ROOT 
 class Job:
     def __init__(s, name, unit, entry, args=(), merge=(), reach=(), bounds='', engine='S', timeout=600, check_ub=True,
                  enum_cap=64, max_paths=200000, max_steps=5_000_000, kf=None, native=True, solver_timeout_ms=120000,
-                 expect_violation=None, extra_units=(), cbmc=None, defines=(), findings=(), redirect=None, snippets=None, stream_sink=False):
+                 expect_violation=None, extra_units=(), cbmc=None, defines=(), findings=(), redirect=None, snippets=None, stream_sink=False, must_reach=None):
         s.name = name; s.unit = unit; s.entry = entry; s.args = list(args); s.merge = list(merge); s.reach = list(reach)
         s.bounds = bounds; s.engine = engine; s.timeout = timeout; s.check_ub = check_ub; s.enum_cap = enum_cap
         s.max_paths = max_paths; s.max_steps = max_steps; s.kf = dict(kf or {}); s.native = native
         s.solver_timeout_ms = solver_timeout_ms; s.expect_violation = expect_violation; s.extra_units = list(extra_units)
-        s.cbmc = cbmc; s.defines = list(defines); s.findings = list(findings); s.redirect = dict(redirect or {}); s.snippets = dict(snippets or {}); s.stream_sink = stream_sink
+        s.cbmc = cbmc; s.defines = list(defines); s.findings = list(findings); s.redirect = dict(redirect or {}); s.snippets = dict(snippets or {}); s.stream_sink = stream_sink; s.must_reach = dict(must_reach or {})
 
 def match_brace(src, i):
     """index of the '}' that closes the '{' at src[i], ignoring braces inside string / character literals and comments"""
@@ -147,6 +147,14 @@ def run_job_S(job, lls):
             res['status'] = 'violation' if viols else 'inconclusive'
             res['error'] = 'budget: ' + str(budget_hit[0])
             res['budget_paths'] = len(budget_hit)
+        # existential clauses ("some input makes X happen"): the exploration of every path within the bounds is the solver's verdict that
+        # no input does; it is reported as a violation of the universal reading, and sampled natively before it is believed
+        if res['status'] == 'pass' and not budget_hit:
+            for tag, msg in job.must_reach.items():
+                if tag not in E.reach_count:
+                    names = samples[0]['model'] if samples else []
+                    res['status'] = 'violation'
+                    res.setdefault('violations', []).append({'kind': 'universal', 'msg': msg + ' (no input within the bounds reaches "%s")' % tag, 'model': names, 'stack': [], 'tag': tag})
         missing = [t for t in job.reach if t not in E.reach_count]
         if missing and res['status'] == 'pass':
             res['status'] = 'inconclusive'; res['error'] = 'vacuity: reach tags never reached: ' + ','.join(missing)
@@ -371,8 +379,19 @@ def check(pid, tier, seed, wd, only, t0):
                 if j.engine == 'S' and j.native and v.get('model') is not None:
                     b = native_build(j.unit, wd, j.defines)
                     if b:
-                        nr = native_run(b, j.entry, j.args, v['model'], wd, '%s_%d' % (j.name.replace('/', '_'), n))
-                        conf = native_confirms(nr, v)
+                        if v['kind'] == 'universal':
+                            # no single input to replay: 300 native runs on random values of the same symbols must not reach the tag either
+                            import random as _rnd
+                            rg = _rnd.Random(12345); hit = False; nr = None
+                            for it in range(300):
+                                mdl = [(nm, w, rg.getrandbits(w)) for nm, w, _ in v['model']]
+                                nr = native_run(b, j.entry, j.args, mdl, wd, '%s_u%d' % (j.name.replace('/', '_'), it % 4))
+                                if ('REACH ' + v['tag']) in nr['out']: hit = True; break
+                                if nr['rc'] not in (0,): break
+                            conf = (not hit) and nr is not None and nr['rc'] == 0
+                        else:
+                            nr = native_run(b, j.entry, j.args, v['model'], wd, '%s_%d' % (j.name.replace('/', '_'), n))
+                            conf = native_confirms(nr, v)
                 rp = os.path.join(OUT, 'replay', '%s_%s_%d.json' % (pid, j.name.replace('/', '_').replace('@', '_'), n))
                 json.dump({'property': pid, 'job': j.name, 'unit': j.unit, 'entry': j.entry, 'args': j.args, 'defines': j.defines,
                            'kind': v['kind'], 'msg': v['msg'], 'model': v.get('model'), 'stack': v.get('stack'),
